@@ -49,7 +49,11 @@ CHECKS = {
         text="Theorems for every program, target, fuel, in-progress set and plan of exceptions thrown in at suspension "
              "points: the in-progress value after the call equals the one before (C11_restore); the first exception that "
              "starts to propagate is the outcome and a normal outcome means none was raised (C11_no_lost_error); every "
-             "operation of a history is observed as if it were the first (C11_probe). Tie: pinned skeletons + fault "
+             "operation of a history is observed as if it were the first (C11_probe); for whole checked calls of the checker "
+             "model (alternative precondition groups, snapshots, error factories, invariants, all kinds, sync/async): the "
+             "first exception raised by user code ends the call and surfaces as that very object or the library's wrapper "
+             "chaining it - the executable statement spec_C11_surface proved of the model for every well-formed case "
+             "(C11_first_exception_surfaces_in_a_checked_call, Proofs/CheckerSurface.v). Tie: pinned skeletons + fault "
              "enumeration by correspondence (exceptions of 5 classes at every kind of site, cancellation/close at awaits).",
         note=TB + "Not modelled (named): closing a suspended contracted coroutine from another context; signals between "
              "two bytecodes of the library's own finally. repr/__bool__ faults are exercised in the checker cluster.",
